@@ -102,6 +102,12 @@ def build_argv(opts, targets):
         a += ["--indent-type", "Spaces"]
     if opts.get("threads") is not None:
         a += ["--num-threads", str(opts["threads"])]
+    if opts.get("range"):
+        rs, re_ = opts["range"]
+        if rs is not None:
+            a += ["--range-start", str(rs)]
+        if re_ is not None:
+            a += ["--range-end", str(re_)]
     if opts.get("verbose"):
         a.append("--verbose")
     if opts.get("globs"):
@@ -199,7 +205,7 @@ def model(case, lf):
     selected = {}
     for rel in order:
         data = spec_bytes(files[rel])
-        r = lf.format(data, cfg_, verify=bool(opts.get("verify")), panic_marker=marker)
+        r = lf.format(data, cfg_, opts.get("range"), verify=bool(opts.get("verify")), panic_marker=marker)
         expected = data
         if r[0] == "ok":
             out = r[1].encode("utf-8")
@@ -428,9 +434,11 @@ def requires_text(k):
 
 
 def unparseable_text(k, variant):
-    v = variant % 6
+    v = variant % 8
     return [clilib.lua_unparseable(k), f"local x{k} = 'unclosed\n", f"x{k} = = 1\n", f"@@@ {k}\n",
-            f"end -- {k}\n", f"local y{k} = 1 --[[ never closed {k}\n"][v]
+            f"end -- {k}\n", f"local y{k} = 1 --[[ never closed {k}\n",
+            # a byte order mark is not Lua: formatted text behind it, and a comment behind it
+            f"\ufefflocal v{k} = {k}\n", f"\ufeff-- only a comment {k}\n"][v]
 
 
 def invalid_utf8_bytes(k, variant):
